@@ -649,27 +649,29 @@ func c01Rec(r *Run) {
 	// one and leaves when the guard answers non-nil
 	// a depth-guard function: it increments an integer field of its receiver, compares that same
 	// field with a limit (>, >=) and has a branch that hands back a non-nil control/error
+	// a depth guard: a function that steps an integer counter reachable from its receiver (up or
+	// down), compares that counter with a bound and has a rejecting result (non-nil control/error, or false)
 	isGuardFn := func(fd *ast.FuncDecl) bool {
-		if fd == nil || fd.Body == nil {
+		if fd == nil || fd.Body == nil || fd.Type.Results == nil {
 			return false
 		}
-		incr := map[string]bool{}
+		stepped := map[string]bool{}
 		ast.Inspect(fd.Body, func(n ast.Node) bool {
 			switch x := n.(type) {
 			case *ast.IncDecStmt:
-				if se, ok := ast.Unparen(x.X).(*ast.SelectorExpr); ok && x.Tok == token.INC {
-					incr[exprStr(se)] = true
+				if se, ok := ast.Unparen(x.X).(*ast.SelectorExpr); ok {
+					stepped[exprStr(se)] = true
 				}
 			case *ast.AssignStmt:
-				if x.Tok == token.ADD_ASSIGN && len(x.Lhs) == 1 {
+				if (x.Tok == token.ADD_ASSIGN || x.Tok == token.SUB_ASSIGN) && len(x.Lhs) == 1 {
 					if se, ok := ast.Unparen(x.Lhs[0]).(*ast.SelectorExpr); ok {
-						incr[exprStr(se)] = true
+						stepped[exprStr(se)] = true
 					}
 				}
 			}
 			return true
 		})
-		if len(incr) == 0 {
+		if len(stepped) == 0 {
 			return false
 		}
 		rejects := false
@@ -680,13 +682,26 @@ func c01Rec(r *Run) {
 			}
 			cmp := false
 			ast.Inspect(is.Cond, func(m ast.Node) bool {
-				if be, ok := m.(*ast.BinaryExpr); ok && (be.Op == token.GTR || be.Op == token.GEQ) {
-					lhs := ast.Unparen(be.X)
-					if b2, ok := lhs.(*ast.BinaryExpr); ok && b2.Op == token.ADD {
-						lhs = ast.Unparen(b2.X)
+				be, ok := m.(*ast.BinaryExpr)
+				if !ok {
+					return true
+				}
+				switch be.Op {
+				case token.GTR, token.GEQ, token.LSS, token.LEQ, token.EQL, token.NEQ:
+				default:
+					return true
+				}
+				for _, side := range []ast.Expr{be.X, be.Y} {
+					e := ast.Unparen(side)
+					if b2, ok := e.(*ast.BinaryExpr); ok && (b2.Op == token.ADD || b2.Op == token.SUB) {
+						e = ast.Unparen(b2.X)
 					}
-					if incr[exprStr(lhs)] {
-						cmp = true
+					if stepped[exprStr(e)] {
+						if t := info.TypeOf(e); t != nil {
+							if bt, ok := t.Underlying().(*types.Basic); ok && bt.Info()&types.IsInteger != 0 {
+								cmp = true
+							}
+						}
 					}
 				}
 				return true
@@ -695,31 +710,44 @@ func c01Rec(r *Run) {
 				return true
 			}
 			for _, st := range is.Body.List {
-				if rs, ok := st.(*ast.ReturnStmt); ok && len(rs.Results) > 0 && exprStr(rs.Results[len(rs.Results)-1]) != "nil" {
-					rejects = true
+				if rs, ok := st.(*ast.ReturnStmt); ok && len(rs.Results) > 0 {
+					last := exprStr(rs.Results[len(rs.Results)-1])
+					if last != "nil" && last != "true" {
+						rejects = true
+					}
 				}
 			}
 			return true
 		})
 		return rejects
 	}
+	isGuardCall := func(e ast.Expr) bool {
+		found := false
+		ast.Inspect(e, func(n ast.Node) bool {
+			if c, ok := n.(*ast.CallExpr); ok {
+				if cal, _ := calleeOf(info, c).(*types.Func); cal != nil && isGuardFn(declOf[cal]) {
+					found = true
+				}
+			}
+			return !found
+		})
+		return found
+	}
 	isGuard := func(fd *ast.FuncDecl) bool {
+		if fd == nil || fd.Body == nil {
+			return false
+		}
 		if isGuardFn(fd) {
 			return true
 		}
-		// x := p.enter(...) … if x != nil { return … }   (also as the init of the if)
+		// x := p.enter(...) … if x != nil { return … }, if !p.take() { return … } (also through the init of the if)
 		guardResult := map[types.Object]bool{}
 		ast.Inspect(fd.Body, func(n ast.Node) bool {
 			as, ok := n.(*ast.AssignStmt)
-			if !ok || len(as.Rhs) != 1 {
+			if !ok || len(as.Rhs) != 1 || !isGuardCall(as.Rhs[0]) {
 				return true
 			}
-			c, ok := ast.Unparen(as.Rhs[0]).(*ast.CallExpr)
-			if !ok {
-				return true
-			}
-			cal, _ := calleeOf(info, c).(*types.Func)
-			if cal == nil || !isGuardFn(declOf[cal]) {
+			if _, isCall := ast.Unparen(as.Rhs[0]).(*ast.CallExpr); !isCall {
 				return true
 			}
 			for _, l := range as.Lhs {
@@ -741,12 +769,14 @@ func c01Rec(r *Run) {
 			if !ok {
 				return true
 			}
-			be, ok := ast.Unparen(is.Cond).(*ast.BinaryExpr)
-			if !ok || be.Op != token.NEQ || exprStr(be.Y) != "nil" {
+			tests := isGuardCall(is.Cond)
+			ast.Inspect(is.Cond, func(m ast.Node) bool {
+				if id, ok := m.(*ast.Ident); ok && guardResult[info.Uses[id]] {
+					tests = true
+				}
 				return true
-			}
-			id, ok := ast.Unparen(be.X).(*ast.Ident)
-			if !ok || !guardResult[info.Uses[id]] {
+			})
+			if !tests {
 				return true
 			}
 			for _, st := range is.Body.List {
